@@ -117,7 +117,9 @@ ConstBlock(specs) ==
   ELSE LET rs == Resolve(specs, 1, "", "")
            per == [i \in DOMAIN rs |-> ConstOne(rs[i], i - 1)] IN
        IF \E i \in DOMAIN per : ~per[i].ok THEN FirstErr(per)
-       ELSE [ok |-> TRUE, consts |-> [i \in DOMAIN per |-> [ty |-> per[i].ty, kind |-> per[i].v.kind, v |-> per[i].v.v]]]
+       ELSE \* the block is followed by a separate declaration  const S = iota  : iota restarts at 0 in every const declaration
+            [ok |-> TRUE, consts |-> [i \in DOMAIN per |-> [ty |-> per[i].ty, kind |-> per[i].v.kind, v |-> per[i].v.v]]
+                                     \o <<[ty |-> UT("int"), kind |-> "int", v |-> 0]>>]
 
 \* ---------- the grid ----------
 Rhs1 == {<<r>> : r \in Singles \cup Multis \cup CommaOks}
